@@ -205,6 +205,36 @@ func c27Cases(thorough bool) []c27Case {
 		}
 	}
 
+	// ---- voteproofs with one dissenting vote in every position (2..3 voters), every family
+	for _, stage := range []base.Stage{base.StageINIT, base.StageACCEPT} {
+		for _, variant := range []string{"plain", "expel", "stuck"} {
+			results := []string{"majority", "majority-special"}
+			if variant == "stuck" {
+				results = []string{"draw"}
+			}
+
+			for _, result := range results {
+				for nvoters := 2; nvoters <= 3; nvoters++ {
+					for pos := 0; pos < nvoters; pos++ {
+						for nexp := 0; nexp <= 2; nexp++ {
+							if (variant == "plain") != (nexp == 0) {
+								continue
+							}
+
+							stage, variant, nvoters, nexp := stage, variant, nvoters, nexp
+							res := fmt.Sprintf("%s,dissent@%d", result, pos)
+
+							g.add("voteproof", fmt.Sprintf("%s,%s,%s,voters=%d,expels=%d", stage, variant, res, nvoters, nexp),
+								vfxVPHint(stage, variant), c27Doc, func() any {
+									return vfxShapeVoteproof(stage, variant, res, nvoters, nexp, true)
+								})
+						}
+					}
+				}
+			}
+		}
+	}
+
 	// ---- ballots
 	for nexp := 0; nexp <= maxl; nexp++ {
 		nexp := nexp
@@ -255,6 +285,22 @@ func c27Cases(thorough bool) []c27Case {
 		}
 	}
 
+	// a list of length 0 has two Go shapes (nil / empty); vfxOps(0) is the empty one
+	g.add("proposal", "fact,nil-operations", isaac.ProposalFactHint, c27Doc, func() any {
+		return isaac.NewProposalFact(base.RawPoint(33, 0), vfxN(0).addr, vfxH("previous-block"), nil)
+	})
+	g.add("proposal", "sign-fact,nil-operations", isaac.ProposalSignFactHint, c27Doc, func() any {
+		sf := isaac.NewProposalSignFact(isaac.NewProposalFact(base.RawPoint(33, 0), vfxN(0).addr, vfxH("previous-block"), nil))
+		vfxMust(sf.Sign(vfxN(0).priv, vfxNID))
+
+		return sf
+	})
+	g.add("proposal", "fact,operations-in-descending-order", isaac.ProposalFactHint, c27Doc, func() any {
+		ops := vfxOps(3)
+		ops[0], ops[2] = ops[2], ops[0]
+
+		return isaac.NewProposalFact(base.RawPoint(33, 0), vfxN(0).addr, vfxH("previous-block"), ops)
+	})
 	g.add("proposal", "fact,no-proposer", isaac.ProposalFactHint, c27Doc, func() any {
 		return isaac.NewProposalFact(base.RawPoint(33, 0), nil, vfxH("previous-block"), vfxOps(1))
 	})
@@ -412,6 +458,27 @@ func c27Cases(thorough bool) []c27Case {
 		}
 	}
 
+	g.add("state", "empty-operations", base.BaseStateHint, c27Doc, func() any {
+		return base.NewBaseState(33, "state-key", vfxCandidatesValue(1), nil, []util.Hash{})
+	})
+	g.add("state", "operations-in-descending-order", base.BaseStateHint, c27Doc, func() any {
+		ops := vfxHs("state-op", 3)
+		sort.Slice(ops, func(i, j int) bool { return ops[i].String() > ops[j].String() })
+
+		return base.NewBaseState(33, "state-key", vfxCandidatesValue(1), nil, ops)
+	})
+	g.add("state-value", "suffrage-nodes,nil-list", isaac.SuffrageNodesStateValueHint, c27Doc, func() any {
+		return isaac.NewSuffrageNodesStateValue(3, nil)
+	})
+	g.add("state-value", "candidates,nil-list", isaac.SuffrageCandidatesStateValueHint, c27Doc, func() any {
+		return isaac.NewSuffrageCandidatesStateValue(nil)
+	})
+	g.add("ballot-fact", "init,empty-expelfacts-list", isaac.INITBallotFactHint, c27Doc, func() any {
+		return isaac.NewINITBallotFact(base.RawPoint(33, 0), vfxH("h1"), vfxH("h2"), []util.Hash{})
+	})
+	g.add("ballot-fact", "accept,empty-expelfacts-list", isaac.ACCEPTBallotFactHint, c27Doc, func() any {
+		return isaac.NewACCEPTBallotFact(base.RawPoint(33, 0), vfxH("h1"), vfxH("h2"), []util.Hash{})
+	})
 	g.add("state", "nil-value", base.BaseStateHint, c27Doc, func() any { return base.NewBaseState(33, "state-key", nil, nil, nil) })
 	g.add("state", "empty-key", base.BaseStateHint, c27Doc, func() any {
 		return base.NewBaseState(33, "", vfxCandidatesValue(1), nil, vfxHs("state-op", 1))
